@@ -392,9 +392,15 @@ def r06_7(ctx):
             for kind, fid in frames:
                 for pending in (True, False):
                     for decode_ok in (True, False):
-                        for done in (False, True):
+                        for done in (False, True, "trailing"):
                             if done and not pending:
                                 continue
+                            # "trailing": the expected reply decodes and leaves bytes over (firmware newer than the tables appends fields):
+                            # it is still the reply that carries the call's sequence number and completes it
+                            trailing = done == "trailing"
+                            if trailing and not (decode_ok and kind == "expected"):
+                                continue
+                            done = False if trailing else done
                             models = [("self._ezsp_frame_rx", lambda px, t, a, k, fr: (5, fid, Sym("payload"))),
                                       ("t.deserialize_dict", Outcomes(OK(({"f0": Sym("v0"), "f1": Sym("v1")}, Sym("rest")))) if decode_ok
                                        else Outcomes(RAISE("ValueError"))),
@@ -407,7 +413,7 @@ def r06_7(ctx):
                                       ("*.cancelled", lambda px, t, a, k, fr: done), ("*.done", lambda px, t, a, k, fr: done),
                                       ("binascii.hexlify", lambda px, t, a, k, fr: "hex")]
                             px = PX(repo, models=models, inline=same_class(),
-                                    facts={"rest": False, "(5 in keys({5}))": True})
+                                    facts={"rest": trailing, "(5 in keys({5}))": True})
                             exp_entry = (cmds[expected][0], cmds[expected][2], fut("pending_future"))
 
                             def setup():
@@ -418,7 +424,7 @@ def r06_7(ctx):
                             paths = px.explore(f, setup)
                             ctx.paths += len(paths)
                             for p in paths:
-                                scen = f"v{v}:{kind},pending={pending},decode={'ok' if decode_ok else 'raises'},done={done}"
+                                scen = f"v{v}:{kind},pending={pending},decode={'ok' if decode_ok else 'raises'},done={done}{',trailing-bytes' if trailing else ''}"
                                 calls = [e for e in p.events if e.kind == "call"]
                                 dec = [e for e in calls if e.what == "t.deserialize_dict" or e.what.endswith(".deserialize")]
                                 visited_call.update(px.visited)
@@ -461,8 +467,8 @@ def r06_7(ctx):
                                                 bad = (f"a pending call expecting frame 0x{cmds[expected][0]:04X} is completed with the payload of frame "
                                                        f"0x{fid:04X} ({by_id[fid][0]})")
                                 if bad:
-                                    ctx.violation(f"__call__:{kind},pending={pending},decode={'ok' if decode_ok else 'raises'}", f"{scen}: {bad}",
-                                                  func=f, trace=p.trace(30), construct=scen)
+                                    ctx.violation(f"__call__:{kind},pending={pending},decode={'ok' if decode_ok else 'raises'}" + (",trailing-bytes" if trailing else ""),
+                                                  f"{scen}: {bad}", func=f, trace=p.trace(30), construct=scen, props=("C06",) if trailing else None)
                                 else:
                                     ctx.ok(1, scen)
     from .ash_link import confined_writers
